@@ -39,7 +39,34 @@ def streams_for(size: str) -> list:
         raws = jwire.split_delimited(e["data"])
         if len(raws) == 1:
             extra.append({**e, "name": e["name"] + "/nondelim", "data": raws[0]})
-    return out + extra
+    return out + extra + [noise_stream()]
+
+
+def noise_stream() -> dict:
+    """A stream that stays above 64 KiB even when compressed (incompressible literals), for
+    the file-backed sources: anything keyed to the size of the underlying file sees a size
+    that differs from the size of the data."""
+    import hashlib  # noqa: PLC0415
+
+    from mc import drivers as DR  # noqa: PLC0415
+    from mc.terms import I, L  # noqa: PLC0415
+
+    seq, h = [], b"seed"
+    for i in range(30):
+        chunks = []
+        for _ in range(125):
+            h = hashlib.sha256(h).digest()
+            chunks.append(h.hex())
+        seq.append((I(f"http://n/s{i}"), I("http://n/p"), L("".join(chunks))))
+    data = DR.g_write(seq, "triple", DR.make_options("triple", (16, 4, 4), 8, True))
+    e = corpus._entry("noise240k/triple", "triple", data, True)
+    e["big"] = True
+    e["file_only"] = True
+    if len(gzip.compress(data)) < 100_000:
+        from mc.env import HarnessError  # noqa: PLC0415
+
+        raise HarnessError("noise stream compresses below 100 kB")
+    return e
 
 
 def make_source(kind: str, data: bytes, schedule, default, tmpdir: str | None = None):
@@ -73,6 +100,18 @@ def make_source(kind: str, data: bytes, schedule, default, tmpdir: str | None = 
         with open(p, "wb") as f:
             f.write(data)
         return open(p, "rb")  # noqa: SIM115  BufferedReader(FileIO)
+    if kind == "gzip-file":
+        assert tmpdir is not None
+        p = os.path.join(tmpdir, "s.jelly.gz")
+        with gzip.open(p, "wb") as f:
+            f.write(data)
+        return gzip.open(p, "rb")
+    if kind == "file-unbuffered":
+        assert tmpdir is not None
+        p = os.path.join(tmpdir, "s.jelly")
+        with open(p, "wb") as f:
+            f.write(data)
+        return open(p, "rb", buffering=0)  # noqa: SIM115  FileIO
     if kind == "gzip":
         return gzip.GzipFile(fileobj=io.BytesIO(gzip.compress(data)), mode="rb")
     raise ValueError(kind)
@@ -89,7 +128,8 @@ def run_case(case: dict) -> str | None:
     if key not in _REF:
         _REF[key] = reference(entry, api, mode)
     want = _REF[key]
-    tmp = tempfile.TemporaryDirectory(prefix="c09_") if case["source"] == "file" else None
+    tmp = tempfile.TemporaryDirectory(prefix="c09_") \
+        if case["source"] in ("file", "gzip-file", "file-unbuffered") else None
     try:
         src = make_source(case["source"], entry["data"], case.get("schedule", ()),
                           case.get("default"), tmp.name if tmp else None)
@@ -153,7 +193,7 @@ def shard(job) -> dict:
         if api == "rdflib" and not entry["rdf11"]:
             continue
         for mode in ("flat", "grouped"):
-            for source in ("bytesio", "file", "gzip", "gzip-members-1", "gzip-members-2",
+            for source in ("bytesio", "file", "gzip-file", "file-unbuffered", "gzip", "gzip-members-1", "gzip-members-2",
                            "gzip-members-3", "gzip-members-7", "tiny-buffer", "preamble-1",
                            "preamble-13", "preamble-14", "preamble-15", "preamble-16",
                            "preamble-17", "preamble-31"):
@@ -164,6 +204,8 @@ def shard(job) -> dict:
                 if r:
                     acc.violation({"source": source, "api": api, "mode": mode},
                                   f"{name} ({api} {mode}): {r}", case)
+            if entry.get("file_only"):
+                continue
             for sched, default in schedules(entry, api, mode, max_dev):
                 for source in ("raw", "buffered", "seekable-buffered"):
                     case = {"corpus": size, "stream": name, "api": api, "mode": mode,
@@ -204,7 +246,8 @@ def run(ctx) -> None:
             "non-seekable raw source whose readinto answers are choice points (default: full): all "
             "uniform schedules c=1..8, the cube of the first three read sizes {1..4}^3, every "
             f"schedule with <= {max_dev} deviation(s) (read #i returns 1, 2 or 3 bytes), each also "
-            "wrapped in BufferedReader(buffer 16); seekable sources BytesIO / file / gzip; x "
+            "wrapped in BufferedReader(buffer 16); seekable sources BytesIO / file / unbuffered file "
+            "/ gzip over BytesIO / gzip.open on a file (also a 240 kB incompressible stream); x "
             "{flat, grouped} x {generic, rdflib}; oracle: identical to parsing from BytesIO; "
             "non-trivial = schedule with at least one short read"
         ),
